@@ -37,6 +37,10 @@ func main() {
 		os.Exit(cmdSelftest(os.Args[2:]))
 	case "callers":
 		os.Exit(cmdCallers(os.Args[2:]))
+	case "list":
+		// the registry as JSON (DESIGN.md appendix is generated from it: tools/gen_inventory.py)
+		b, _ := json.MarshalIndent(properties, "", " ")
+		fmt.Println(string(b))
 	default:
 		usage()
 	}
